@@ -438,7 +438,10 @@ static void unit_fn(void *arg)
                 vs_log("apiCall suspend U%d", u->id);
                 u->in_run = 0;
                 ABT_OK(ABT_self_suspend());
-                VSA_CHECK(!cdone, "U%d runs on after a suspension although ABT_thread_cancel on it had returned before it suspended", u->id);
+                /* (no cancellation check here: a suspension cannot terminate the unit, and a resumed unit that another
+                 * unit switches to directly — resume_yield_to, a popped target of self_yield_to — runs again without
+                 * passing the scheduler's request handling; the request takes effect at the unit's next yield) */
+                (void)cdone;
                 VSA_CHECK(u->in_run == 0, "unit U%d resumed on two streams at once", u->id);
                 u->in_run = 1;
                 vs_note("apiRet suspend U%d", u->id);
